@@ -434,6 +434,10 @@ def apply_step(pool, l, chinfo):
         return 'scalar', npc.inner(a, b, axes='range', do_conj=l['do_conj'])
     if op == 'trace':
         return 'store', npc.trace(a, l['x'] - 1, l['y'] - 1)
+    if op == 'copy':
+        return 'store', a.copy(deep=True)
+    if op == 'shallow_copy':
+        return 'store', a.copy(deep=False)
     if op == 'add_scaled':
         b = pool[l['b']]
         z = gauss(l['z'])
